@@ -27,6 +27,9 @@ def run(tier, rng, C):
         if rng.random() < 0.25 and (nname + '.yml',) not in tw.classes:
             miss = nname               # a missing class named like a node of the inventory
             tw.universe.add(miss)
+        elif rng.random() < 0.2:
+            miss = rng.choice(['extra\n', 'opt\nional', 'zz.mis\nsing', 'tab\tbed', 'sp ace'])     # e.g. from a YAML block scalar entry
+            tw.universe.add(miss)
         holders = sorted(tw.classes) + [node]
         hs = rng.sample(holders, min(len(holders), rng.choice([1, 1, 2, 3])))   # the same missing class from several places
         if rng.random() < 0.4 and node not in hs:
